@@ -29,6 +29,7 @@ def handle (line : String) : Option String :=
       some (s!"obs x{Driver.Srv.toHex r.1} " ++ (match r.2 with | .done => "done" | .closed => "closed" | .starved => "starved"))
     | _, _ => some "obs BAD-WAV"
   | "overflow" :: _ => some "obs OVERFLOW-OK"
+  | "interrupted" :: _ => some "obs INTERRUPTED-OK"
   | _ => none
 
 end Driver.Wr
